@@ -129,3 +129,29 @@ extern "C" void h_c01d_record_reassembly()
     if (cur > 0) CHECKM(s->body_[0] == (char)b0, "earlier body bytes changed");
     VERIF_END();
 }
+
+// C01.d2: the asynchronous twin of C01.d (fastcgi::on_header_read appended content+padding to body_;
+// on_body_read must strip exactly this record's padding): afterwards body_ is the earlier bytes
+// followed by the record's content.
+static unsigned g_calls2; static int g_err2;
+struct rec_handler2 { void operator()(booster::system::error_code const &e) const { g_calls2++; g_err2 = e.value(); } };
+extern "C" void h_c01d_async_body()
+{
+    unsigned cur = verif_param(0);            // bytes accumulated from earlier records
+    fastcgi *s = raw_fcgi(0);
+    unsigned cl = nondet_u8(), pl = nondet_u8();
+    ASSUME(cl <= 4 && pl <= 7);
+    s->header_.content_length = cl; s->header_.padding_length = pl;
+    s->body_.resize(cur + cl + pl);
+    unsigned char snap[16];
+    for (unsigned i = 0; i < cur + cl + pl && i < 16; i++) { snap[i] = nondet_u8(); s->body_[i] = (char)snap[i]; }
+    g_calls2 = 0;
+    cppcms::impl::cgi::handler h = rec_handler2();
+    s->on_body_read(booster::system::error_code(), h);
+    CHECKM(g_calls2 == 1 && g_err2 == 0, "completion handler not called once with success");
+    CHECKM(s->body_.size() == cur + cl, "body_ is not the earlier bytes plus this record's content (padding not stripped exactly)");
+    for (unsigned i = 0; i < cur + cl && i < 16 && i < s->body_.size(); i++) CHECKM((unsigned char)s->body_[i] == snap[i], "accumulated bytes changed");
+    WITNESS("record completed");
+    if (cur > 0 && pl > 0) WITNESS("later record with padding");
+    VERIF_END();
+}
